@@ -58,8 +58,8 @@ def compile_expr(e, d, mat=None):
     return fn
 
 
-def compile_form(form, d, coef, mat=None):
-    terms = [(f2(t["k"]), compile_expr(t["eu"], d, mat), compile_expr(t["ev"], d, mat)) for t in form]
+def compile_form(form, d, coef, mat=None, kscale=1.0):
+    terms = [(f2(t["k"]) * kscale, compile_expr(t["eu"], d, mat), compile_expr(t["ev"], d, mat)) for t in form]
 
     def f(u, v):
         gu, gv = u.grad, v.grad
@@ -113,6 +113,21 @@ def run_form(job):
             K2 = np.asarray(form.Integrate_e(field))
         if np.abs(K2 - K1).max() > 1e-12 * sc:
             viol.append((f"integrate-twice/{key}", f"form {desc} on {elem}: a second Integrate_e with the same Field gives a different result", {"form": fm, "elem": elem}))
+        if idx % 2 == 0:
+            # Forms.tla, Homogeneous: the same form with its weights multiplied by 1e-9 gives the element arrays multiplied by 1e-9
+            KS = 1e-9
+            form_s = BiLinearForm(compile_form(fm["form"], d, fm["coef"], fm.get("mat"), kscale=KS))
+            with quiet():
+                Ks = np.asarray(form_s.Integrate_e(Field(g, d, MatrixType.rigi)))
+                As = form_s.Assemble(Field(g, d, MatrixType.rigi)).toarray()
+            if Ks.shape != Kref.shape or np.abs(Ks - KS * Kref).max() > 1e-10 * KS * sc:
+                viol.append((f"integrate-small/{key}", f"form {desc} on {elem} with its weights multiplied by {KS:g}: Integrate_e differs from {KS:g} x the sum over the coefficient tensor (max relative {np.abs(Ks - KS * Kref).max() / (KS * sc) if Ks.shape == Kref.shape else 'shape'})", {"form": fm, "elem": elem}))
+            rows_s = g.Get_assembly_e(d)
+            Aref_s = np.zeros_like(As)
+            for e in range(g.Ne):
+                Aref_s[np.ix_(rows_s[e], rows_s[e])] += KS * Kref[e]
+            if np.abs(As - Aref_s).max() > 1e-10 * max(np.abs(Aref_s).max(), 1e-300):
+                viol.append((f"assemble-small/{key}", f"form {desc} on {elem} with its weights multiplied by {KS:g}: Assemble is not the scatter-add of the element arrays", {"form": fm, "elem": elem}))
         if idx % 3 == 0:
             # the same Field on a mesh that is then modified in place: the element arrays follow the new geometry
             m2 = mesh.copy()
